@@ -3,7 +3,7 @@
 from .. import core, tree
 
 MOD = "mc.props.c15"
-KINDS = ("node", "user", "light", "weird", "falsy", "eqhash", "falsylight", "norepr", "container")
+KINDS = ("node", "user", "light", "weird", "falsy", "eqhash", "falsylight", "norepr", "container", "tuplenode", "tuple0")
 
 
 def expected(m, a, b):
